@@ -51,7 +51,7 @@ def versions_stage(ctx):
                 names = [ebbfake.req_name(w) for w in port.writes]
                 cmd = {"servo_timeout": "SR", "query_voltage": "QC", "query_nickname": "QT", "write_nickname": "ST", "reboot": "RB"}[g]
                 sent = cmd in names
-                extra = [x for x in names if x not in ("V", cmd)]
+                extra = [x for x in names if x.upper() != "V" and x != cmd]
                 if sent is not exp or extra:
                     ctx.violation("version.legacy_gate_" + g, {"mode": "G", "k": "gate", "gate": g, "version": vs(v), "threshold": vs(t), "previous": prev},
                                   {"command_sent": exp}, {"writes": port.writes})
